@@ -14,3 +14,5 @@ import TddaVerif.Drv.C19
 import TddaVerif.Model.Regen
 import TddaVerif.Model.Constraints
 import TddaVerif.Drv.Cx
+import TddaVerif.Model.TddaFile
+import TddaVerif.Drv.C09
